@@ -98,6 +98,9 @@ class Prop(core.Prop):
         for start in (0, 2):
             for masked in (False, True):
                 yield {'ioapi': ioapi_u.recipe(nt=2, nl=2, nr=2, nc=3, nv=2, start=start, masked=masked)}
+            # records that are not evenly spaced in time (a day is missing): the time flags lack LAY/ROW/COL
+            # and come back as they went in
+            yield {'ioapi': dict(ioapi_u.recipe(nt=4, nl=2, nr=2, nc=2, nv=1, start=start), uneven_flags=True)}
 
     def expand(self, group):
         if 'ioapi' in group:
@@ -146,6 +149,16 @@ class Prop(core.Prop):
         v.units, v.long_name, v.var_desc = 'count'.ljust(16), 'ICNT'.ljust(16), 'ICNT'.ljust(80)
         v[...] = (np.arange(int(np.prod(v.shape))) * 3 + 1).reshape(v.shape)
         real.updatemeta()
+        if case['ioapi'].get('uneven_flags'):
+            from ..ref import rtime
+            sd_, st_ = ioapi_u.STARTS[case['ioapi']['start']]
+            allt = rtime.ioapi_times(sd_, st_, case['ioapi']['tstep'], 30)
+            tf = real.variables['TFLAG']
+            for i, k_ in enumerate((0, 1, 26, 27)[:tf.shape[0]]):
+                d__, h__ = rtime.to_ioapi(allt[k_])
+                tf[i, :, 0] = d__
+                tf[i, :, 1] = h__
+        tflag0 = np.array(real.variables['TFLAG'][...])
         full = lib.snap(real)
         # reference: the data variables only (time flags and IOAPI metadata are C10's business)
         rf = rfile.RFile()
@@ -171,6 +184,12 @@ class Prop(core.Prop):
             return result('viol', vs, states)
         snap = lib.snap(got)
         exp0 = exps[0]
+        if d_ != 'TSTEP' and 'TFLAG' in got.variables.keys():
+            tf1 = np.asarray(got.variables['TFLAG'][...])
+            if tf1.shape != tflag0.shape or not np.array_equal(tf1, tflag0):
+                vs.append(viol('untouched-variable-changed', sig + ('TFLAG',), 'TFLAG (no %s dimension) went from '
+                               '%s to %s' % (d_, tflag0[:, 0].tolist(), tf1[:, 0].tolist()), funcs=fcls, ioapi=True,
+                               varkind='tflag'))
         for k, ev in exp0.vars.items():
             if k not in snap.vars:
                 vs.append(viol('variable-missing', sig, k, funcs=fcls, ioapi=True))
